@@ -29,7 +29,7 @@ def translate(ctx):
     pc.translated(ctx)
 
 
-def run_case(ctx, case, ir):
+def run_case(ctx, case, ir, with_v=True):
     """returns (V disagreement or None, property failure or None)"""
     kernels, schemas, consts = ir[case['lean_model']]
     p = pc.make_panel(case)
@@ -45,12 +45,13 @@ def run_case(ctx, case, ir):
     params = dict(y1=case['y1'], y2=case['y2'])
     ncte = [case.get(k) or 0. for k in ('Nxx_cte', 'Nyy_cte', 'Nxy_cte')]
     v_bad = None
-    mine = panel_v.interp_kernel(kernels[kname], consts, p, params, size, row0, col0)
-    if any(ncte):
+    mine = panel_v.interp_kernel(kernels[kname], consts, p, params, size, row0, col0) if with_v else raw
+    if any(ncte) and with_v:
         gname = 'fkG0y1y2' if y12 else 'fkG0'
         mine = mine + panel_v.interp_kernel(kernels[gname], consts, p,
                                             dict(params, Nxx=ncte[0], Nyy=ncte[1], Nxy=ncte[2]), size, row0, col0)
-    d = pc.rel_diff(raw, mine)
+    num_ = 1 if case['lean_model'] == 'PlateW' else 3
+    d = max(pc.rel_diff(raw, mine), pc.block_rel_diff(raw, mine, num_, row0) / 10.)
     if d > 1e-9:
         v_bad = 'translated %s interpreted on this panel differs from Panel.calc_k0(finalize=False): rel %.3e' % (kname, d)
     # property predicate on the implementation
@@ -61,7 +62,7 @@ def run_case(ctx, case, ir):
         want = want + panel_v.oracle_matrix(case['model'], p, 'kG0', dict(Nxx=ncte[0], Nyy=ncte[1], Nxy=ncte[2]),
                                             size, row0, col0, y12)
     p_bad = None
-    d2 = pc.rel_diff(full, want)
+    d2 = max(pc.rel_diff(full, want), pc.block_rel_diff(full, want, num_, row0))       # every field block on its own scale
     if d2 > 1e-8:
         i, j = np.unravel_index(np.abs(full - want).argmax(), full.shape)
         p_bad = ('calc_k0 differs from the Hessian of the strain energy%s: rel %.3e at [%d,%d] (code %.6e, energy %.6e)'
@@ -222,6 +223,24 @@ def correspondence(ctx):
             ctx.violation(v_bad + ' (source model and running binary diverge, or translator error); the energy '
                           'oracle agrees with the running code on this panel', dict(case=case, tie='V fk0'),
                           found_input=False)
+            return
+    # very thin, very large panels with a rich basis: the bending block is 1e-9 of the membrane block and its high-order entries are
+    # 1e-15 of the largest entry of the matrix (judged block-wise, on their own scale; seeded change C15-1 prunes exactly those)
+    for t in range(ctx.scale(1, 4)):
+        case = pc.gen_panel_case(rng, models=('Plate', 'CPanel') if t else ('Plate',), max_mn=3, y12=False)
+        mn = 10 + 2 * t
+        case.update(a=rng.uniform(8., 14.), b=rng.uniform(4., 6.), plyt=rng.choice([0.1e-3, 0.2e-3]), stack=[0.] if t % 2 == 0 else [0., 90.],
+                    laminaprop=(71e9, 71e9, 0.33) if t % 2 == 0 else (142.5e9, 8.7e9, 0.28, 5.1e9, 5.1e9, 5.1e9), m=mn, n=mn, offset=0.,
+                    pad=0, row0=0, col0=0)
+        if case['r'] is not None:
+            case['r'] = 40.
+        for k in case['flags']:
+            case['flags'][k] = 0. if k[1:3] in ('1t', '2t') else 1.
+        ctx.evaluations += 1
+        v_bad, p_bad = run_case(ctx, case, ir, with_v=False)
+        dist['thin_rich'] = dist.get('thin_rich', 0) + 1
+        if p_bad:
+            ctx.violation('C02 fails on the implementation: ' + p_bad, dict(case=case))
             return
     for t in range(ctx.scale(6, 40)):
         c, bad = additivity(ctx, rng, t)
